@@ -27,6 +27,19 @@ type Printer struct {
 	FullParens bool // parenthesise every compound operand
 	b          strings.Builder
 	ind        int
+	// layout variety (a pure function of the tree): block-like expressions (if / match / try / block) that
+	// stand where no binding power is required are written bare most of the time and in parentheses every
+	// third time; the last expression statement of a block is written without its ';' every second time
+	// when that does not change the block's type (it becomes the block's trailing expression).
+	nBare, nTail int
+}
+
+func blockLike(e Expr) bool {
+	switch e.(type) {
+	case *Block, *If, *Match, *Try:
+		return true
+	}
+	return false
 }
 
 func PrintProgramModule(m *Module) string {
@@ -144,8 +157,14 @@ func (p *Printer) block(b *Block) {
 	}
 	p.w("{")
 	p.ind++
-	for _, s := range b.Stmts {
+	for i, s := range b.Stmts {
 		p.nl()
+		if es, ok := s.(ExprStmt); ok && i == len(b.Stmts)-1 && b.Tail == nil && !es.Semi && !p.FullParens && tailable(es.X, b.T) {
+			if p.nTail++; p.nTail%2 == 0 {
+				p.expr(es.X, 0) // no ';': the statement is the block's trailing expression now
+				continue
+			}
+		}
 		p.stmt(s)
 	}
 	if b.Tail != nil {
@@ -155,6 +174,26 @@ func (p *Printer) block(b *Block) {
 	p.ind--
 	p.nl()
 	p.w("}")
+}
+
+// tailable: dropping the ';' behind this last statement keeps the block's type (the block yields null or
+// diverges, and so does the expression).
+func tailable(e Expr, blockT Type) bool {
+	if blockT.K != KNull && blockT.K != KNever {
+		return false
+	}
+	t := e.Type()
+	if t.K != KNull && t.K != KNever {
+		return false
+	}
+	switch x := e.(type) {
+	case *If, *Match, *Try, *Block:
+		return true
+	case Call:
+		_, isIdent := x.Fn.(Ident)
+		return isIdent
+	}
+	return false
 }
 
 func (p *Printer) stmt(s Stmt) {
@@ -184,12 +223,12 @@ func (p *Printer) stmt(s Stmt) {
 		p.block(s.Body)
 	case While:
 		p.w("while ")
-		p.expr(s.Cond, 0)
+		p.expr(s.Cond, 1)
 		p.w(" ")
 		p.block(s.Body)
 	case For:
 		p.w("for " + s.Var + " in ")
-		p.expr(s.Iter, 0)
+		p.expr(s.Iter, 1)
 		p.w(" ")
 		p.block(s.Body)
 	case ExprStmt:
@@ -260,6 +299,10 @@ func exprPrec(e Expr) int {
 func (p *Printer) expr(e Expr, min int) {
 	pr := exprPrec(e)
 	need := pr < min || (pr == -1 && min > 0)
+	if min == 0 && blockLike(e) && !p.FullParens {
+		p.nBare++
+		need = p.nBare%3 == 0
+	}
 	if p.FullParens && min > 0 && pr != precAtom {
 		need = true
 	}
@@ -369,7 +412,7 @@ func (p *Printer) exprInner(e Expr) {
 		p.block(e)
 	case *If:
 		p.w("if ")
-		p.expr(e.Cond, 0)
+		p.expr(e.Cond, 1)
 		p.w(" ")
 		p.block(e.Then)
 		switch el := e.Else.(type) {
@@ -385,7 +428,7 @@ func (p *Printer) exprInner(e Expr) {
 		}
 	case *Match:
 		p.w("match ")
-		p.expr(e.X, 0)
+		p.expr(e.X, 1)
 		p.w(" {")
 		p.ind++
 		for _, a := range e.Arms {
